@@ -121,7 +121,7 @@ func runT(t *testing.T, pg *progT, start uint16, prefix []int) (x *sched.Exec, k
 		}
 		var exchErr error
 		s.Go("exchange", func() {
-			for i := 0; i < 40; i++ {
+			for i := 0; i < 16; i++ {
 				f := world.Delivered
 				if i < len(pg.fates) {
 					f = pg.fates[i]
@@ -207,7 +207,11 @@ func TestLayerTSmoke(t *testing.T) {
 				x, kind, detail := runT(t, &pg, 0, prefix)
 				kinds[kind]++
 				if kind != "" && kinds[kind] == 1 {
-					t.Logf("%s: %s\n   schedule %v", kind, detail, x.Choices())
+					var tr []string
+					for _, st := range x.Steps {
+						tr = append(tr, st.At)
+					}
+					t.Logf("%s: %s\n   schedule %v\n   trace %s", kind, detail, x.Choices(), strings.Join(tr, " "))
 				}
 				if len(x.Steps) > steps {
 					steps = len(x.Steps)
